@@ -166,14 +166,14 @@ def case_matrix(case):
             lv = lv[:L + 1]
     else:
         lv = br.levels(L)
-    Lw = len(lv) - 1 if not exhausted else len(lv)   # longest classified words: Lw (exhausted: one beyond)
+        exhausted = len(lv) - 1 < L          # the level after the last one is empty: finite group, all seen
     growth = cw.growth_from_levels(lv, br)
     # second oracle: lengths by matrix enumeration (up to Lmat)
     Lmat = min(int(case.get("Lmat", L)), len(lv) - 1)
     tr = cw.TitsRep(nm)
     tl = tr.levels(Lmat)
     g2 = [len(x) for x in tl]
-    if g2 != growth[:len(g2)] or (exhausted and Lmat == len(lv) - 1 and len(tr.levels(Lmat + 1)) != len(tl)):
+    if g2 != growth[:len(g2)]:
         V.add("HARNESS-oracle/growth", "braid classes give %r, matrix enumeration %r" % (growth, g2))
     table = {k: i for i, x in enumerate(tl) for k in x}
 
@@ -194,8 +194,8 @@ def case_matrix(case):
             if mn == w:
                 reduced_words[1].add(w)
             if k == 0:
-                for (A, nmz, exp) in ((geo, "geodesic", True), (slx, "shortlex", True)):
-                    if bool(A.accepts(to_lib_word(w, names, single))) != exp:
+                for (A, nmz) in ((geo, "geodesic"), (slx, "shortlex")):
+                    if not bool(A.accepts(to_lib_word(w, names, single))):
                         V.add("%s/accepts/empty-word" % nmz, "empty word rejected")
                 nclassified += 1
             if k == len(lv) - 1 and not exhausted:
@@ -205,8 +205,8 @@ def case_matrix(case):
                 red, mn, _ = br.classify(u)
                 nclassified += 1
                 lw = to_lib_word(u, names, single)
-                a_geo = bool(A_accepts(geo, lw))
-                a_slx = bool(A_accepts(slx, lw))
+                a_geo = bool(geo.accepts(lw))
+                a_slx = bool(slx.accepts(lw))
                 t += 2
                 if len(u) <= Lmat:
                     ln = table.get(tr.key(tr.matrix(u)))
@@ -218,9 +218,7 @@ def case_matrix(case):
                     V.add("geodesic/accepts/" + ("false-reject" if red else "false-accept"),
                           "word %r (%r): accepts=%r, oracle reduced=%r" % (lw, u, a_geo, red))
                 is_nf = red and mn == u
-                if is_nf:
-                    pass
-                elif red:
+                if red and not is_nf:
                     hard += 1
                 if a_slx != is_nf:
                     if is_nf:
@@ -316,13 +314,10 @@ def case_matrix(case):
             except Exception as e:  # recorded as a finding class of its own, the exploration goes on
                 V.add("%s/accepts/exception-%s" % (which, type(e).__name__),
                       "accepts(%r) raised %s: %s" % (lw, type(e).__name__, str(e)[:80]))
-                E2 = G.automaton(shortlex=shortlex, even_length=True)
                 continue
             if got_a != exp:
                 V.add("%s/accepts/%s" % (which, "false-reject" if exp else "false-accept"),
                       "accepts(%r) = %r, expected %r" % (lw, got_a, exp))
-                if got_a:
-                    E2 = G.automaton(shortlex=shortlex, even_length=True)   # shed phantom states
 
     # ---------------- faithful images of the shortlex words -------------------------------
     Limg = min(int(case.get("Limg", L)), Lc)
@@ -337,10 +332,6 @@ def case_matrix(case):
 
     o = "%s|%s|%s" % (",".join(map(str, growth[:10])), "fin" if spherical else "inf", "X" if exhausted else "")
     return {"v": V.out(), "t": nclassified, "o": o, "nt": hard > 0}
-
-
-def A_accepts(A, w):
-    return A.accepts(w)
 
 
 def case_oracle(case):
